@@ -418,13 +418,53 @@ class DiffXReader(object):
             'type': section_type.decode('ascii'),
         }
 
-    def _read_content(self,
-                      length,
-                      encoding=None,
-                      indent=None,
-                      line_endings=None,
-                      preserve_trailing_newline=False,
-                      keep_bytes=False):
+    def _read_content(self, length, encoding=None, **kwargs):
+        """Read content for a section, with the given length.
+
+        This wraps :py:meth:`_read_raw_content`, making sure that an unusable
+        encoding (one that's unknown, isn't a text encoding, or can't decode
+        the content) results in a parse error.
+
+        Args:
+            length (int):
+                The length of the content to read.
+
+            encoding (unicode, optional):
+                The encoding used to decode the content to a Unicode string.
+
+            **kwargs (dict):
+                Additional keyword arguments for :py:meth:`_read_raw_content`.
+
+        Returns:
+            bytes or unicode:
+            The processed string.
+
+        Raises:
+            pydiffx.errors.DiffXParseError:
+                The content could not be read or decoded.
+        """
+        if encoding is not None and not isinstance(encoding, str):
+            raise DiffXParseError(
+                'Expected the encoding option to be the name of an encoding',
+                linenum=self._linenum)
+
+        try:
+            return self._read_raw_content(length=length,
+                                          encoding=encoding,
+                                          **kwargs)
+        except (LookupError, UnicodeError) as e:
+            raise DiffXParseError(
+                'Unable to process the content using encoding "%s": %s'
+                % (encoding, e),
+                linenum=self._linenum)
+
+    def _read_raw_content(self,
+                          length,
+                          encoding=None,
+                          indent=None,
+                          line_endings=None,
+                          preserve_trailing_newline=False,
+                          keep_bytes=False):
         """Read content for a section, with the given length.
 
         The content will be read, any specified indentation stripped, and
